@@ -314,7 +314,7 @@ def wire_check(ctx, h, in_range, label, doc=None):
           {"label": label, "expected_not_emitted": sorted(missing.elements())[:5], "emitted_not_expected": sorted(mo)[:5]})
 
 
-def continue_on_loaded(ctx, doc_str, label):
+def continue_on_loaded(ctx, doc_str, label, orig=None):
     """The history continues on the loaded copy (C02/C03): load, mutate the loaded HUGR through the graph API
     (incl. in-place metadata edits and new order links next to order edges that were read with explicit offsets),
     round-trip and wire-check it again, and load the original document once more: it must load the same."""
@@ -323,11 +323,20 @@ def continue_on_loaded(ctx, doc_str, label):
     from ..reader_main import obs_hugr
 
     ch = ctx.ch
+    if ch.coin(1, 3, "failed-load-first"):
+        # fault, then workload: a document cut short is rejected; the intact one must then load as if nothing had happened
+        cut = doc_str[:max(1, len(doc_str) * (1 + ch.draw(8, "cut")) // 10)]
+        try:
+            Hugr.load_json(cut)
+            ctx.probe("truncated_document_loaded")
+        except Exception:  # noqa: BLE001
+            ctx.fault("truncated_document_rejected")
     try:
         h2 = Hugr.load_json(doc_str)
         first = json.loads(json.dumps(obs_hugr(h2)))
     except Exception:  # noqa: BLE001  (judged by roundtrip_check)
         return
+    orig_obs = json.loads(json.dumps(obs_hugr(orig), default=repr)) if orig is not None else None
     gs = GraphSim(ctx, in_range=True, allow_delete=ch.coin(1, 2, "p-delete"), allow_insert=False, use_meta=True,
                   max_nodes=len(h2) + 6, adopt_hugr=h2, order_only_valid=True)
     _mutate(ctx, gs, 1 + ch.draw(8, "nsteps-loaded"))
@@ -337,6 +346,11 @@ def continue_on_loaded(ctx, doc_str, label):
         return
     roundtrip_check(ctx, h2, label + "+loaded+mutated", False)
     wire_check(ctx, h2, True, label + "+loaded+mutated")
+    if orig is not None:
+        # two objects that share a document, not state: edits of the loaded copy do not show in the original
+        ctx.checked("copy-independent")
+        if json.loads(json.dumps(obs_hugr(orig), default=repr)) != orig_obs:
+            ctx.violate("copy-independent", "original-changed-by-edits-of-the-loaded-copy", {"label": label})
     ctx.checked("load-deterministic")
     try:
         again = json.loads(json.dumps(obs_hugr(Hugr.load_json(doc_str))))
